@@ -75,7 +75,8 @@ CHECKS["C04"] = dict(
                 "exported *Event method (enumerated by reflection) called with recording arguments on six kinds of filtered event; Panic/Fatal "
                 "behaviour observed in-process and in a re-executed child. exhaustive=true for the level space."),
     technique="runtime monitoring: exhaustive level-triple enumeration + reflection-driven inertness probes + child-process exit observation",
-    stages=lambda tier: [dict(variant="vh", cmd="c04", shards=16, timeout=1200)],
+    stages=lambda tier: [dict(variant="vh", cmd="c04", shards=16, timeout=1200, crash_is_violation=True,
+                              crash_desc="the process terminated while only WithLevel()/level-method/inertness probes were running (none of which may exit or panic)")],
     rule=("every (logger level, global level, event level) triple in [-128,127]^3 is one case (16 777 216, all distinct by construction), plus the "
           "named level methods and Print family on the 256x256 grid, 1029 text round trips, one call per (exported Event method x filtered-event "
           "source) and 11 Panic/Fatal scenarios; non-trivial = all of them (each is a different input); distinct_nontrivial counts hashes only "
@@ -186,7 +187,7 @@ CHECKS["C19"] = dict(
 
 
 def _c17_stages(tier):
-    common = dict(cmd="c17", shards=16, timeout=3000, crash_is_violation=True)
+    common = dict(cmd="c17", shards=16, timeout=3000, crash_is_violation=True, crash_desc="child process died while decoding")
     return [dict(variant="vh", crash_witness="/verif/build/c17.current.json.{shard}", **common),
             dict(variant="vh-bin", crash_witness="/verif/build/c17.current.bin.{shard}", **common)]
 
